@@ -283,6 +283,27 @@ fn main() -> Result<()> {
     let (log_output_dest, log_reload_handle, _log_appender_guard) =
         init_logging(&opt, keypair.public().to_peer_id())?;
 
+    #[cfg(feature = "verif-hooks")]
+    if std::env::var("ANTNODE_VERIF_DUMP_EFFECTIVE").is_ok() {
+        // verification hook: show the configuration the node is about to run with, then stop
+        let read = |s: &std::sync::RwLock<String>| s.read().map(|v| v.clone()).unwrap_or_default();
+        println!("VERIF-EFFECTIVE network_id={}", version::get_network_id());
+        println!("VERIF-EFFECTIVE identify_protocol={}", read(&version::IDENTIFY_PROTOCOL_STR));
+        println!("VERIF-EFFECTIVE identify_node_version={}", read(&version::IDENTIFY_NODE_VERSION_STR));
+        println!("VERIF-EFFECTIVE req_response_version={}", read(&version::REQ_RESPONSE_VERSION_STR));
+        println!("VERIF-EFFECTIVE protocol_in_use={}", *identify_protocol_str);
+        println!("VERIF-EFFECTIVE evm_network={evm_network:?}");
+        println!("VERIF-EFFECTIVE rewards_address={rewards_address:?}");
+        println!("VERIF-EFFECTIVE node_socket_addr={node_socket_addr}");
+        println!("VERIF-EFFECTIVE root_dir={}", root_dir.display());
+        println!("VERIF-EFFECTIVE log_output_dest={log_output_dest}");
+        println!("VERIF-EFFECTIVE peer_id={}", keypair.public().to_peer_id());
+        println!("VERIF-EFFECTIVE home_network={}", opt.home_network);
+        println!("VERIF-EFFECTIVE local={}", opt.peers.local);
+        println!("VERIF-EFFECTIVE rpc={:?}", opt.rpc);
+        return Ok(());
+    }
+
     let rt = Runtime::new()?;
     let mut bootstrap_cache = BootstrapCacheStore::new_from_peers_args(
         &opt.peers,
